@@ -1,4 +1,5 @@
 import TR.Lemmas.Backoff
+import TR.Lemmas.BackoffFloat
 /-!
 # C14 — back-off delays are total, monotone and capped
 
@@ -7,10 +8,24 @@ bound; attempts above `i32::MAX` use the clamped exponent exactly as the code do
 initial interval, every multiplier `num/den ≥ 1`, every cap (absent = `Duration::MAX`, below /
 equal / above the initial interval), and every `ReconnectPolicy` / interval function built on it.
 
-(B) `total_over_any_arithmetic`: the repaired `capped_exponential`, transcribed over an abstract
-arithmetic, never takes the panic branch and never exceeds the cap, for every arithmetic that
-satisfies the four listed laws. That binary64 satisfies them, and that the float result is close
-to `ideal`, is sampled by the correspondence check (envelope `allowedExp` / `allowedRand`), not proved.
+(B) the code itself, transcribed over an abstract arithmetic (`nextInterval`, `randomizeFull`, `Policy.delayForAttempt`):
+* `total_over_any_arithmetic`: never the panic branch, never above the cap, for every arithmetic with the four laws
+  of `FloatLike`;
+* **(B) = (A) on exact arithmetic**: `code_is_ideal_natArith`, `code_is_ideal_ratArith` — on exact naturals / exact
+  rationals (fractional multipliers, the only rounding being the floor of `from_secs_f64`) the code computes `ideal`;
+* under the named hypothesis structure `F64Laws` (what is assumed of binary64 — `powi` monotone in the exponent for a
+  multiplier ≥ 1, exact for powers of two, …): `float_monotone`, and `float_exact_in_exact_region` (no tolerance: the
+  code equals `ideal` wherever the initial interval and the maximum are exactly representable seconds and the
+  multiplier is a power of two); the checker demands exactly that there (`exact_region_choice_sound`) and holds every
+  other observed value against the cap, the envelope and monotonicity (`accepted_observations_monotone`);
+* under `JitterLaws`: `jitter_range_well_formed` (the range handed to `rand::Rng::random_range` has finite bounds,
+  `lo ≤ hi`, a finite width — for every attempt and every configuration the constructors accept), `randomize_total`,
+  `randomize_within_bounds`, `jitter_code_within_factor_ratArith` ((B) = (A) for the jitter, any rational factor);
+* `interval_function_total`, `delay_for_attempt_total`, `loop_never_crashes`, `loop_runs_forever`: the last clause of
+  the property; `reconnect_policy_*`: `ReconnectPolicy::delay_for_attempt`, zero / sub-millisecond delays included.
+The laws are hypotheses, not axioms: `laws_consistent` exhibits an arithmetic with overflow, +∞ and NaN satisfying all
+of them. That binary64 satisfies them is what the correspondence check samples. `TR.Mutants.Backoff*`: the pinned code
+and the seeded changes C14-w5m1 / C14-w5m2, transcribed the same way, provably violate these statements.
 -/
 namespace TR.Props.C14
 open TR TR.Backoff
@@ -185,6 +200,221 @@ theorem delay_independent_of_setter_order (i p q c : Nat) (pre post : List Sette
     ideal (build i (pre ++ .cap c :: .mult p q :: post)) a = ideal (build i (pre ++ .mult p q :: .cap c :: post)) a := by
   rw [builder_distinct_setters_commute i pre post (.cap c) (.mult p q) (by simp [Setter.isMult])]
 
+/-! ## (B) = (A): the transcribed code computes `ideal` wherever no rounding occurs -/
+
+/-- **On exact naturals** (`natArith`: every operation exact, natural multiplier `m`, including 0): for every initial
+interval, attempt and maximum that is a `Duration`, `capped_exponential` returns exactly `ideal`. The side condition
+`c ≤ Duration::MAX` is what makes `from_secs_f64` defined below the cap; nothing else is needed. -/
+theorem code_is_ideal_natArith (i m a : Nat) (cap : Option Nat) (hc : ∀ c, cap = some c → c ≤ durMax) :
+    nextInterval natArith i (some m) a cap = .dur (ideal { initial := i, num := m, den := 1, cap := cap } a) :=
+  nextInterval_natArith_eq_ideal i m a cap hc
+
+/-- **On exact rationals** (`ratArith`: fractional multipliers `num/den`, no overflow, the only rounding is the floor in
+`from_secs_f64`): the code returns exactly `ideal cfg a = min ⌊initial·(num/den)^e⌋ cap`, for every valid configuration. -/
+theorem code_is_ideal_ratArith (cfg : Cfg) (hv : cfg.Valid) (hc : ∀ c, cfg.cap = some c → c ≤ durMax) (a : Nat) :
+    nextInterval ratArith cfg.initial (.q cfg.num cfg.den) a cfg.cap = .dur (ideal cfg a) :=
+  nextInterval_ratArith_eq_ideal cfg hv hc a
+
+/-- … and where `den^e` divides `initial·num^e` (e.g. every whole-number multiplier) not even that floor rounds:
+below the cap the delay times `den^e` is `initial·num^e` on the nose. -/
+theorem ideal_no_rounding (cfg : Cfg) (hv : cfg.Valid) (a : Nat) (h : raw cfg a < cfg.capNs)
+    (hdiv : cfg.den ^ expo a ∣ cfg.initial * cfg.num ^ expo a) :
+    ideal cfg a * cfg.den ^ expo a = cfg.initial * cfg.num ^ expo a := by
+  rw [(ideal_exact_below_cap_aux cfg hv a h).1]
+  exact Nat.div_mul_cancel hdiv
+
+/-! ## the float instance: what is assumed of binary64 (`F64Laws`), and what follows -/
+
+/-- **Non-decreasing in the attempt number — the code itself**, over every arithmetic satisfying `F64Laws` (in
+particular: `powi` monotone in the exponent for a multiplier ≥ 1, multiplication and `from_secs_f64` monotone), for all
+attempts, every initial interval, every multiplier `≥ 1` and every maximum. -/
+theorem float_monotone (fl : FloatLike) (O : FloatOps fl) (L : F64Laws fl O) (i : Nat) (m : fl.F) (mx : Option Nat)
+    (hi : i ≤ durMax) (hmax : ∀ c, mx = some c → c ≤ durMax) (hm : fl.le O.one m = true) (a b : Nat) (hab : a ≤ b) :
+    ∃ da db, nextInterval fl i m a mx = .dur da ∧ nextInterval fl i m b mx = .dur db ∧ da ≤ db ∧ db ≤ mx.getD durMax := by
+  obtain ⟨da, ha, _⟩ := nextInterval_total fl i m a mx hmax
+  obtain ⟨db, hb, hbc⟩ := nextInterval_total fl i m b mx hmax
+  exact ⟨da, db, ha, hb, nextInterval_mono fl O L i m mx hi hmax hm hab ha hb, hbc⟩
+
+/-- **Exact on the exact region — the code itself**: when the initial interval and the maximum are numbers of seconds
+binary64 represents exactly (`exactRegion`) and the multiplier is `2^j`, every `f64` operation of `capped_exponential`
+is exact under `F64Laws`, and the result is `ideal` with no tolerance at all: `initial × multiplier^attempt` until
+that reaches the maximum, the maximum afterwards. -/
+theorem float_exact_in_exact_region (fl : FloatLike) (O : FloatOps fl) (L : F64Laws fl O) (cfg : Cfg) (j a : Nat)
+    (hx : exactRegion cfg = true) (hj : cfg.num = 2 ^ j * cfg.den) (hc : ∀ c, cfg.cap = some c → c ≤ durMax) :
+    nextInterval fl cfg.initial (O.pow2 j) a cfg.cap = .dur (ideal cfg a) := by
+  obtain ⟨hd, hrep, hce, _⟩ := exactRegion_spec hx
+  rw [nextInterval_exact fl O L cfg.initial j a cfg.cap hrep (fun c h => ⟨hc c h, hce c h⟩)]
+  unfold ideal
+  rw [raw_pow2 cfg j hd hj a]
+  rfl
+
+/-- what the checker accepts inside the exact region is `ideal` itself … -/
+theorem exact_region_choice_sound (cfg : Cfg) (a v : Nat) (hx : exactRegion cfg = true) (h : allowedExp cfg a v = true) :
+    v = ideal cfg a := by
+  unfold allowedExp at h
+  rw [hx, idealExec_eq cfg (exactRegion_valid hx)] at h
+  simpa using h
+
+/-- … and over a whole run of the checker, whatever the operations: any two observed values it has accepted for one
+configuration are ordered like their attempt numbers (the same attempt: the same value). An implementation whose
+values are not monotone in the attempt is answered `choice-not-allowed`. -/
+theorem accepted_observations_monotone (hdr : Kv) (ops : List (List String)) (cfg : Cfg) (a b v w : Nat)
+    (ha : (a, v) ∈ histGet (runM { hdr := hdr } ops).hist cfg) (hb : (b, w) ∈ histGet (runM { hdr := hdr } ops).hist cfg)
+    (hab : a ≤ b) : v ≤ w :=
+  runM_HistInv ops { hdr := hdr } HistInv_nil cfg (a, v) ha (b, w) hb hab
+
+/-- a probe line that is not answered `choice-not-allowed` has its value in the history (and it was allowed) -/
+theorem accepted_observation_recorded (st : St) (ws : List String) (cfg : Cfg) (v : Nat)
+    (hk : parseKind (kvMerge st.hdr (parseKv ws)) = .exp cfg) (ho : parseObs ws = .ns v)
+    (hacc : (probe st ws).2 ≠ [.raw "choice-not-allowed"]) :
+    ((kvMerge st.hdr (parseKv ws)).nat "attempt" 0, v) ∈ histGet (probe st ws).1.hist cfg ∧
+    allowedExp cfg ((kvMerge st.hdr (parseKv ws)).nat "attempt" 0) v = true :=
+  probe_records st ws cfg v hk ho hacc
+
+/-- **The hypotheses are consistent**: `ovfArith` — integers with overflow to +∞ (at `2^200`), `∞ − ∞ = NaN`,
+`0·∞ = NaN` — satisfies `F64Laws` and `JitterLaws`; so do the exact rationals (fractional multipliers and factors;
+there `powi` monotone in the exponent for a multiplier ≥ 1 is a theorem, not an assumption). -/
+theorem laws_consistent : F64Laws ovfArith ovfOps ∧ JitterLaws ovfArith ovfOps ∧
+    F64Laws ratArith ratOps ∧ JitterLaws ratArith ratOps :=
+  ⟨ovfF64, ovfJitter, ratF64, ratJitter⟩
+
+/-! ## jitter: the range handed to `random_range`, any factor in `[0,1]` -/
+
+/-- **`random_range` cannot panic**: for every `Duration` `d` (in particular the capped delay of every attempt) and every
+stored factor `f ∈ [0,1]`, the range `d − d·f ..= d + d·f` has finite bounds, `lo ≤ hi` (so neither is NaN) and a finite
+width — exactly the three conditions under which `rand::Rng::random_range` does not panic. -/
+theorem jitter_range_well_formed (fl : FloatLike) (O : FloatOps fl) (J : JitterLaws fl O) (d : Nat) (f : fl.F) (hd : d ≤ durMax)
+    (hf0 : fl.le fl.zero f = true) (hf1 : fl.le f O.one = true) :
+    rangeOk fl O (jitterRange fl O d f).1 (jitterRange fl O d f).2 = true :=
+  jitterRange_ok fl O J d f hd hf0 hf1
+
+/-- **Every configuration the constructor accepts**: `ExponentialRandomBackoff::new(initial, f)` with any `f` that is a
+number (finite or infinite, negative or above 1 — `clamp(0.0, 1.0)`), followed by any setters, is well-formed, so the
+range is well-formed for every attempt and every draw, and `next_interval` returns a `Duration`. (`f = NaN` survives the
+clamp and is outside the property's `[0,1]`.) -/
+theorem constructor_accepts (fl : FloatLike) (O : FloatOps fl) (J : JitterLaws fl O) (i : Nat) (f m : fl.F) (mx : Option Nat)
+    (hi : i ≤ durMax) (hm : ∀ c, mx = some c → c ≤ durMax) (hf : fl.le f f = true) (a : Nat) (r : fl.F) :
+    (IntervalFn.newRand O i f m mx).WF O ∧ ∃ d, (IntervalFn.newRand O i f m mx).next O a r = .dur d ∧ d ≤ durMax :=
+  ⟨IntervalFn.newRand_WF O J i f m mx hi hm hf,
+   IntervalFn.next_total O J _ (IntervalFn.newRand_WF O J i f m mx hi hm hf) a r⟩
+
+/-- the full `randomize` — range computation included — returns a `Duration` whatever is drawn -/
+theorem randomize_total (fl : FloatLike) (O : FloatOps fl) (J : JitterLaws fl O) (d : Nat) (f r : fl.F) (hd : d ≤ durMax)
+    (hf0 : fl.le fl.zero f = true) (hf1 : fl.le f O.one = true) : ∃ v, randomizeFull fl O d f r = .dur v ∧ v ≤ durMax :=
+  randomizeFull_total fl O J d f r hd hf0 hf1
+
+/-- **Within the randomization factor — the code itself**: a draw inside the range gives a delay between the conversions
+of the two bounds `d − d·f` and `d + d·f` (when they are convertible; else `Duration::MAX` bounds it). -/
+theorem randomize_within_bounds (fl : FloatLike) (O : FloatOps fl) (J : JitterLaws fl O) (d : Nat) (f r : fl.F) (hd : d ≤ durMax)
+    (hf0 : fl.le fl.zero f = true) (hf1 : fl.le f O.one = true) (hin : InRange fl O d f r) (v : Nat)
+    (hv : randomizeFull fl O d f r = .dur v) :
+    (∀ l, fl.toDur? (jitterRange fl O d f).1 = some l → l ≤ v) ∧
+    (∀ h, fl.toDur? (jitterRange fl O d f).2 = some h → v ≤ h) :=
+  randomizeFull_envelope fl O J d f r hd hf0 hf1 hin hv
+
+/-- **(B) = (A) for the jitter**: on exact rationals, for every valid configuration, every factor `fn/fd ∈ [0,1]` (any
+rational, not only whole percents), every attempt and every draw inside the range, the jittered interval function
+returns a delay within `[⌊x(1−f)⌋, ⌊x(1+f)⌋]` of `x = ideal cfg a`, and a `Duration`. -/
+theorem jitter_code_within_factor_ratArith (cfg : Cfg) (hv : cfg.Valid) (hc : ∀ c, cfg.cap = some c → c ≤ durMax)
+    (fn fd a : Nat) (r : Q) (hfd : 0 < fd) (h : fn ≤ fd) (hin : InRange ratArith ratOps (ideal cfg a) (.q fn fd) r) (v : Nat)
+    (hr : (IntervalFn.rand cfg.initial (.q cfg.num cfg.den) (.q fn fd) cfg.cap : IntervalFn ratArith).next ratOps a r = .dur v) :
+    jitterLoQ (ideal cfg a) fn fd ≤ v ∧ v ≤ jitterHiQ (ideal cfg a) fn fd ∧ v ≤ durMax :=
+  rand_next_ratArith_envelope cfg hv hc fn fd a r hfd h hin hr
+
+/-- **Jittered variants stay within the randomization factor, any factor `fn/fd ∈ [0,1]`** (exact arithmetic): for every
+random point `r/s ∈ [0,1]`, `x(1−f) ≤ jittered ≤ x(1+f) ≤ 2x`; the un-jittered value lies inside; a factor 0 changes nothing. -/
+theorem jitter_envelope_rational (x fn fd r s : Nat) (hd : 0 < fd) (hf : fn ≤ fd) (hr : r ≤ s) :
+    jitterLoQ x fn fd ≤ jitteredQ x fn fd r s ∧ jitteredQ x fn fd r s ≤ jitterHiQ x fn fd ∧
+    jitterLoQ x fn fd ≤ x ∧ x ≤ jitterHiQ x fn fd ∧ jitterHiQ x fn fd ≤ 2 * x ∧
+    (fn = 0 → jitteredQ x fn fd r s = x) := by
+  refine ⟨(jitteredQ_bounds x fn fd r s hd hr).1, (jitteredQ_bounds x fn fd r s hd hr).2, jitterLoQ_le x fn fd,
+    le_jitterHiQ x fn fd hd, jitterHiQ_le x fn fd hf, ?_⟩
+  intro h0
+  subst h0
+  have := jitterQ_zero x fd hd
+  have hb := jitteredQ_bounds x 0 fd r s hd hr
+  omega
+
+/-- the factor the constructor stores (`clamp`) is in `[0,1]`, and an in-range factor is stored unchanged -/
+theorem stored_factor_in_unit_interval (fn fd : Nat) :
+    (clampFactor fn fd).1 ≤ (clampFactor fn fd).2 ∧ (fn ≤ fd → clampFactor fn fd = (fn, fd)) :=
+  ⟨clampFactor_le fn fd, clampFactor_id fn fd⟩
+
+/-- What the correspondence check accepts as the implementation's value for a jittered kind: within the randomization
+factor `fn/fd` of `ideal` (± the float tolerance), and a `Duration` — the counterpart of `allowed_choice_sound`. -/
+theorem allowed_rand_sound (cfg : Cfg) (hv : cfg.Valid) (fn fd a v : Nat) (h : allowedRand cfg fn fd a v = true) :
+    jitterLoQ (ideal cfg a) fn fd ≤ v + tol (ideal cfg a) + 1 ∧
+    v ≤ jitterHiQ (ideal cfg a) fn fd + 2 * tol (ideal cfg a) + 1 ∧ v ≤ durMax :=
+  allowed_rand_sound_aux cfg hv fn fd a v h
+
+/-! ## "retry and reconnect loops can run indefinitely against a dead backend without crashing" -/
+
+/-- **Every built-in interval function is total**: `FixedInterval`, `ExponentialBackoff`, `ExponentialRandomBackoff` as the
+public constructors build them return a `Duration` for every attempt and every draw — no panic in `from_secs_f64`, none
+in `random_range`. -/
+theorem interval_function_total (fl : FloatLike) (O : FloatOps fl) (J : JitterLaws fl O) (f : IntervalFn fl) (h : f.WF O)
+    (a : Nat) (r : fl.F) : ∃ d, f.next O a r = .dur d ∧ d ≤ durMax :=
+  IntervalFn.next_total O J f h a r
+
+/-- **`ReconnectPolicy::delay_for_attempt` is total**: `None` exactly for `ReconnectPolicy::None`, else `Some` of a `Duration`. -/
+theorem delay_for_attempt_total (fl : FloatLike) (O : FloatOps fl) (J : JitterLaws fl O) (p : Policy fl) (h : p.WF O)
+    (a : Nat) (r : fl.F) :
+    (p = .none ∧ p.delayForAttempt O a r = Option.none) ∨ ∃ d, p.delayForAttempt O a r = some (.dur d) ∧ d ≤ durMax :=
+  Policy.delay_total O J p h a r
+
+/-- **The loop never crashes**: a reconnect / retry loop that asks the policy for a delay after each of `n` consecutive
+failures (numbered from any `first`: 0 for retry, 1 for reconnect; `n` unbounded) is never in the crashed state, and every
+delay it slept is a `Duration`, whatever the random draws. -/
+theorem loop_never_crashes (fl : FloatLike) (O : FloatOps fl) (J : JitterLaws fl O) (p : Policy fl) (h : p.WF O)
+    (draws : Nat → fl.F) (first n : Nat) :
+    outage O p draws first n ≠ .crashed ∧ (outage O p draws first n).Fine := by
+  have hf := outage_fine O J p h draws first n
+  refine ⟨?_, hf⟩
+  intro hc
+  rw [hc] at hf
+  exact hf
+
+/-- **… and runs indefinitely**: with a policy that reconnects, after `n` failures the loop is still running and has
+slept exactly `n` times. -/
+theorem loop_runs_forever (fl : FloatLike) (O : FloatOps fl) (J : JitterLaws fl O) (f : IntervalFn fl) (h : f.WF O)
+    (draws : Nat → fl.F) (first n : Nat) : ∃ s, outage O (.fn f) draws first n = .running s ∧ s.length = n :=
+  outage_running O J f h draws first n
+
+/-! ## `ReconnectPolicy::delay_for_attempt`: zero and sub-millisecond delays included -/
+
+/-- `delay_for_attempt` hands on the interval function's value and adds nothing to it -/
+theorem delay_for_attempt_adds_nothing (fl : FloatLike) (O : FloatOps fl) (i mx d a : Nat) (r : fl.F) :
+    (Policy.exponential O i mx).delayForAttempt O a r = some (nextInterval fl i (O.pow2 1) a (some mx)) ∧
+    (Policy.fixed d : Policy fl).delayForAttempt O a r = some (.dur d) ∧
+    (Policy.none : Policy fl).delayForAttempt O a r = Option.none :=
+  ⟨rfl, rfl, rfl⟩
+
+/-- **Never above the maximum**, over any arithmetic: `ReconnectPolicy::exponential(initial, max)` returns a `Duration` at
+most `max` for every attempt — whatever the size of `max` (below one millisecond, below the initial delay). -/
+theorem reconnect_policy_capped (fl : FloatLike) (O : FloatOps fl) (i mx a : Nat) (r : fl.F) (hm : mx ≤ durMax) :
+    ∃ d, (Policy.exponential O i mx).delayForAttempt O a r = some (.dur d) ∧ d ≤ mx :=
+  Policy.delay_exponential_capped O i mx a r hm
+
+/-- a zero initial delay yields zero, for every attempt, over any arithmetic -/
+theorem reconnect_policy_zero_initial (fl : FloatLike) (O : FloatOps fl) (mx a : Nat) (r : fl.F) :
+    (Policy.exponential O 0 mx).delayForAttempt O a r = some (.dur 0) :=
+  Policy.delay_exponential_zero O mx a r
+
+/-- **`initial × 2^attempt` until that reaches the maximum** on exact arithmetic, for *every* initial delay and maximum
+in nanoseconds — in particular below one millisecond: no floor, no rounding to milliseconds … -/
+theorem reconnect_policy_delay_ratArith (i mx a : Nat) (r : Q) (hm : mx ≤ durMax) :
+    (Policy.exponential ratOps i mx).delayForAttempt ratOps a r = some (.dur (min (i * 2 ^ expo a) mx)) ∧
+    min (i * 2 ^ expo a) mx = ideal (build i [.mult 2 1, .cap mx]) a := by
+  refine ⟨Policy.delay_exponential_ratArith i mx a r hm, ?_⟩
+  rw [build_policy]
+  simp [ideal, raw, Cfg.capNs]
+
+/-- … and over every arithmetic satisfying `F64Laws`, whenever the two delays are exactly representable seconds. -/
+theorem reconnect_policy_delay_exact (fl : FloatLike) (O : FloatOps fl) (L : F64Laws fl O) (i mx a : Nat) (r : fl.F)
+    (hi : Rep i) (hm : mx ≤ durMax) (hme : CapExact mx) :
+    (Policy.exponential O i mx).delayForAttempt O a r = some (.dur (min (i * 2 ^ expo a) mx)) :=
+  Policy.delay_exponential_exact O L i mx a r hi hm hme
+
 /-! ## non-vacuity -/
 
 private def cfgD : Cfg := { initial := 100000000, num := 2, den := 1, cap := some 5000000000 }
@@ -218,5 +448,75 @@ example : build 100000000 [.cap 10000000000, .mult 3 2] = build 100000000 [.mult
     ∧ build 5 [] = { initial := 5, num := 2, den := 1, cap := none }
     ∧ idealExec (build 250000000 [.cap 60000000000, .mult 1 1]) 18446744073709551615 = 250000000 := by
   decide
+
+/-- the hypotheses of `policy_monotone` and `ideal_no_overflow`: a jittered policy kind over a valid configuration (the
+default reconnect policy's, factor 1/3) with its un-jittered values at two attempts; a maximum that is a `Duration` -/
+example : KindValid (.rand cfgD 1 3) ∧ (Kind.rand cfgD 1 3).base 2 = some 400000000 ∧ (Kind.rand cfgD 1 3).base 9 = some 5000000000
+    ∧ (∀ c, cfgD.cap = some c → c ≤ durMax) := by
+  refine ⟨⟨by decide, by decide⟩, by decide, by decide, ?_⟩
+  intro c hc
+  cases hc
+  decide
+
+/-! ### non-vacuity of the float-side statements -/
+
+/-- a configuration in the exact region (1/512 s × 4, maximum 1 h) and two outside it (100 ms is not a binary fraction of a
+second; ×1.5 is not a power of two); the checker demands `ideal` exactly inside and rejects a value 1 ns off -/
+example : exactRegion { initial := 1953125, num := 4, den := 1, cap := some 3600000000000 } = true
+    ∧ exactRegion { initial := 100000000, num := 2, den := 1, cap := none } = false
+    ∧ exactRegion { initial := 1000000000, num := 3, den := 2, cap := none } = false
+    ∧ allowedExp { initial := 1953125, num := 4, den := 1, cap := some 3600000000000 } 5 2000000000 = true
+    ∧ allowedExp { initial := 1953125, num := 4, den := 1, cap := some 3600000000000 } 5 2000000001 = false
+    ∧ allowedExp { initial := 1953125, num := 4, den := 1, cap := some 3600000000000 } 11 3600000000000 = true
+    ∧ pow2Of 8 2 = some 2 := by
+  decide
+
+/-- `Rep`, `CapExact`: 1 s, 5 s, `Duration::MAX` -/
+example : Rep 1000000000 ∧ CapExact 5000000000 ∧ CapExact durMax :=
+  ⟨repB_sound (by decide), Or.inr (repB_sound (by decide)), Or.inl rfl⟩
+
+/-- the hypotheses of `float_monotone` / `jitter_range_well_formed` / `loop_never_crashes` on `ovfArith`: multiplier 3 ≥ 1,
+factor 1 ∈ [0,1]; the code over it: 100 ms × 3^a capped at 5 s, then +∞ is caught by the cap at attempt 200 -/
+example : ovfArith.le ovfOps.one (.fin 3) = true ∧ ovfArith.le ovfArith.zero (.fin 1) = true ∧ ovfArith.le (.fin 1) ovfOps.one = true
+    ∧ nextInterval ovfArith 100000000 (.fin 3) 2 (some 5000000000) = .dur 900000000
+    ∧ nextInterval ovfArith 100000000 (.fin 3) 200 (some 5000000000) = .dur 5000000000
+    ∧ nextInterval ovfArith 100000000 (.fin 3) 200 none = .dur durMax
+    ∧ rangeOk ovfArith ovfOps (jitterRange ovfArith ovfOps durMax (.fin 1)).1 (jitterRange ovfArith ovfOps durMax (.fin 1)).2 = true := by
+  decide
+
+/-- the jitter on exact rationals with the factor 1/3 (not a whole percent): 3 ms ± 1 ms; a draw of 2.5 ms is in range and
+is what comes out; the range of `Duration::MAX` with factor 1 is `[0, 2·MAX]` and a draw at its top saturates -/
+example : jitterRange ratArith ratOps 3000000 (.q 1 3) = (.q 6000000 3, .q 12000000 3)
+    ∧ jitterLoQ 3000000 1 3 = 2000000 ∧ jitterHiQ 3000000 1 3 = 4000000
+    ∧ randomizeFull ratArith ratOps 3000000 (.q 1 3) (.q 5000000 2) = .dur 2500000
+    ∧ randomizeFull ratArith ratOps durMax (.q 1 1) (.q (2 * durMax) 1) = .dur durMax
+    ∧ clampFactor 3 2 = (1, 1) ∧ clampFactor 1 3 = (1, 3) ∧ clampFactor 7 0 = (1, 1) := by
+  decide
+
+/-- `InRange` for the draw above -/
+example : InRange ratArith ratOps 3000000 (.q 1 3) (.q 5000000 2) := by
+  constructor <;> decide
+
+/-- `ReconnectPolicy::exponential` with a zero, a sub-millisecond initial delay, a sub-millisecond maximum:
+0 for ever; 125 µs, 250 µs, 500 µs, 1 ms, 2 ms; 100 µs capped at 400 µs from attempt 2 on — and `usize::MAX` -/
+example : (Policy.exponential ratOps 0 5000000000).delayForAttempt ratOps 7 .nan = some (.dur 0)
+    ∧ (Policy.exponential ratOps 125000 10000000).delayForAttempt ratOps 0 .nan = some (.dur 125000)
+    ∧ (Policy.exponential ratOps 125000 10000000).delayForAttempt ratOps 1 .nan = some (.dur 250000)
+    ∧ (Policy.exponential ratOps 125000 10000000).delayForAttempt ratOps 3 .nan = some (.dur 1000000)
+    ∧ (Policy.exponential ratOps 125000 10000000).delayForAttempt ratOps 4 .nan = some (.dur 2000000)
+    ∧ (Policy.exponential ratOps 100000 400000).delayForAttempt ratOps 1 .nan = some (.dur 200000)
+    ∧ (Policy.exponential ratOps 100000 400000).delayForAttempt ratOps 2 .nan = some (.dur 400000)
+    ∧ (Policy.exponential ovfOps 100000 400000).delayForAttempt ovfOps 3 .nan = some (.dur 400000)
+    ∧ (Policy.exponentialRandom ratOps 250000 1000000000 (.q 0 1)).delayForAttempt ratOps 1 (.q 500000 1) = some (.dur 500000) := by
+  decide
+
+/-- a well-formed jittered policy and three steps of an outage loop over it (attempts 1, 2, 3; draws in range) -/
+example : outage ratOps (Policy.exponentialRandom ratOps 100000000 5000000000 (.q 1 2)) (fun _ => .q 150000000 1) 1 3
+    = .running [150000000, 150000000, 150000000] := by
+  decide
+
+example (fl : FloatLike) (O : FloatOps fl) (J : JitterLaws fl O) (f : fl.F) (hf : fl.le f f = true) :
+    (Policy.exponentialRandom O 100000000 5000000000 f).WF O :=
+  Policy.exponentialRandom_WF O J _ _ f (by decide) (by decide) hf
 
 end TR.Props.C14
